@@ -4,7 +4,7 @@ CONSTANTS
   MaxExec = 1
   MaxEmit = 1
   Subs = {}
-  SampleMod = 10
+  SampleMod = 2
   Tag = "CT"
   MaxLen = 99
   Dev_BoxKeptAfterRemove = FALSE
